@@ -1,20 +1,20 @@
 SPECIFICATION Spec
 CONSTANTS
-  OptSet <- OptsPlain
-  CallSet <- SingleCalls
-  ChangeSet <- MoveChanges
+  OptSet <- OptsBudget
+  CallSet <- BudgetCalls
+  ChangeSet <- BudgetChanges
   MaxCalls = 1
   MaxChanges = 1
   MaxGen = 3
   MaxAtt = 3
-  EagerLazy = FALSE
+  EagerLazy = TRUE
   LazyMidCall = FALSE
   FixDenied = TRUE
   BugAskNoAsking = FALSE
   BugTxNoMulti = FALSE
   BugPredIgnored = FALSE
   BugNodeOrder = FALSE
-  BugMovedIgnored = TRUE
+  BugMovedIgnored = FALSE
   BugMaxOffByOne = FALSE
   BugSelClamp = FALSE
   BugRefreshDropsInit = FALSE
@@ -22,7 +22,6 @@ CONSTANTS
   BugPoolStale = FALSE
   BugStreamKeyless = FALSE
   BugPromoteReplica = FALSE
-INVARIANTS TypeOK RedirectFollowed
+INVARIANTS TypeOK RedirectFollowed AskingPrecedes BoundedRedirects ReachesOwner RetryHonoured BatchOrder TxContiguousOneNode TxResentWhole ReplicaOnlyWhenOptedIn OutOfRangeFallsBackToPrimary NoResendAfterDenied GenDone
 CONSTRAINT GenBound
-VIEW MCView
 CHECK_DEADLOCK FALSE
